@@ -1,4 +1,5 @@
 import MockeryModel.Sem.Matryer
+import MockeryLemmas.Matryer
 /-!
 # C04 — matryer-style mocks forward calls and record them faithfully
 
@@ -14,20 +15,6 @@ theorem bodies_transcribed :
     generatedBodies.resetOne = expectedBodies.resetOne ∧ generatedBodies.resetAll = expectedBodies.resetAll ∧
     Generated.matryerResetGuards = ["{{- if index $mock.TemplateData \"with-resets\" }}", "{{- if index $mock.TemplateData \"with-resets\" }}"] := by
   refine ⟨?_, ?_, ?_, ?_, ?_⟩ <;> decide
-
-def panicMsg : String := "STRUCT.METHODFunc: method is nil but IFACE.METHOD was just called"
-
-theorem emitted_call_ff (r : Bool) : emitted ⟨false, r⟩ false expectedCallBody =
-    [.decl, .nilPanic panicMsg, .decl, .recordFields, .lock, .append, .unlock, .forward] := rfl
-theorem emitted_call_ft (r : Bool) : emitted ⟨false, r⟩ true expectedCallBody =
-    [.decl, .nilPanic panicMsg, .decl, .recordFields, .lock, .append, .unlock, .forward] := rfl
-theorem emitted_call_tf (r : Bool) : emitted ⟨true, r⟩ false expectedCallBody =
-    [.decl, .decl, .recordFields, .lock, .append, .unlock, .nilReturnZero, .forward] := rfl
-theorem emitted_call_tt (r : Bool) : emitted ⟨true, r⟩ true expectedCallBody =
-    [.decl, .decl, .recordFields, .lock, .append, .unlock, .decl, .nilReturnZero, .forward] := rfl
-theorem emitted_calls (cfg : Cfg) : emitted cfg false expectedCallsBody =
-    [.decl, .decl, .decl, .rlock, .snapshot, .runlock, .returnCalls] := rfl
-theorem emitted_reset (cfg : Cfg) : emitted cfg false expectedResetBody = [.decl, .lock, .clear, .unlock] := rfl
 
 /-- **forwarding**: with a non-nil `<M>Func` a call invokes it exactly once, with exactly the call's
 arguments, returns exactly its results, and appends exactly one record holding the arguments in
